@@ -40,25 +40,31 @@ func observeBig(c gx.Case, t gx.Tok, viol *[]hx.OracleViolation) string {
 	leaves, extra := t.Ints[0], t.Ints[1]
 	n, es := bigTree(leaves, extra)
 	tag := fmt.Sprintf("B:%d.%d", leaves, extra)
-	fail := func(format string, a ...interface{}) {
-		*viol = append(*viol, hx.Fail("C09:ChromaticIndex:"+c.G6+":"+tag, "ChromaticIndex on %s: %s", tag, fmt.Sprintf(format, a...)))
-	}
+	h := gx.New(n)
 	g := graph.NewDense(n, nil)
-	adj := make([][]bool, n)
-	for i := range adj {
-		adj[i] = make([]bool, n)
-	}
 	for _, e := range es {
 		g.AddEdge(e[0], e[1])
-		adj[e[0]][e[1]], adj[e[1]][e[0]] = true, true
+		h.Add(e[0], e[1])
 	}
 	want := leaves // maximum degree of the tree (leaf 1 has degree <= 2 <= leaves when leaves >= 2)
 	if leaves == 1 && extra > 1 {
 		want = 2
 	}
+	return checkChromaticIndex(c, tag, g, h, want, viol)
+}
+
+// checkChromaticIndex runs ChromaticIndex on g (the harness's copy of the same graph is h),
+// compares the value with the constructed chromatic index want and validates the witness.
+func checkChromaticIndex(c gx.Case, tag string, g graph.Graph, h *gx.G, want int, viol *[]hx.OracleViolation) string {
+	n := h.N
+	adj := h.A
+	es := h.Edges()
+	fail := func(format string, a ...interface{}) {
+		*viol = append(*viol, hx.Fail("C09:ChromaticIndex:"+c.G6+":"+tag, "ChromaticIndex on %s: %s", tag, fmt.Sprintf(format, a...)))
+	}
 	ci, ce := graph.ChromaticIndex(g)
 	if ci != want {
-		fail("value %d, the chromatic index of this tree is %d", ci, want)
+		fail("value %d, the chromatic index of this graph is %d", ci, want)
 	}
 	if len(ce) != n*(n-1)/2 {
 		fail("edge array has length %d", len(ce))
